@@ -70,7 +70,7 @@ def _contexts(scenario, first, switches, granularity):
         shared = Runtime().handle(RA, _tagger("shared"))
         (s0, e0), (s1, e1) = _ctx_scripts(RA, shared, scenario)
         ws = [Worker(sched, s0, granularity, (rt.__file__,)), Worker(sched, s1, granularity, (rt.__file__,))]
-        n = run_two(ws, first, switches)
+        n = run_two(ws, first, switches, bound=512)
     finally:
         rt.lock = real_lock
     ok = True
@@ -156,7 +156,7 @@ def inherit(first: int, a: int, b: int, c: int) -> int:
         rt.inherit(wp.t)
 
     wc = Worker(sched, [do_inherit, lambda: _serve(RA), lambda: _serve(RA)], "op")
-    n = run_two([wp, wc], first, (a, b, c))
+    n = run_two([wp, wc], first, (a, b, c), bound=16)
     want = seen_at_inherit[0] if seen_at_inherit else None
     note("first", first, "switches", (a, b, c), "parent saw", wp.results, "child saw", wc.results, "parent had at inherit", want)
     if not (wp.finished and wc.finished):
@@ -190,13 +190,14 @@ def _register(form, first, switches, granularity):
         return [lambda: d.overload(aliases[0])(impls[tag]) and None, lambda: d.register(aliases[1], Value(tag)) and None]
 
     ws = [Worker(sched, reg(("a1", "a2"), "impl-a"), granularity, files), Worker(sched, reg(("b1", "b2"), "impl-b"), granularity, files)]
-    n = run_two(ws, first, switches)
+    n = run_two(ws, first, switches, bound=512)
     got = {}
-    for al in ("a1", "a2", "b1", "b2", "zz"):
-        try:
-            got[al] = d({"D": al})
-        except Exception as e:
-            got[al] = "raised " + type(e).__name__
+    with untraced():        # everything is concrete here
+        for al in ("a1", "a2", "b1", "b2", "zz"):
+            try:
+                got[al] = d({"D": al})
+            except Exception as e:
+                got[al] = "raised " + type(e).__name__
     want = {"a1": "impl-a", "a2": "impl-a", "b1": "impl-b", "b2": "impl-b", "zz": ("base", 0)}
     note("form", form, "first", first, "switches", switches, "steps", n, "dispatch results", got, "worker results", [w.results for w in ws])
     if not all(w.finished for w in ws):
@@ -210,15 +211,15 @@ REG = {0: "register(alias, impl) twice per thread", 1: "@overload([alias1, alias
 REG_STEPS = 330      # measured: at most 318 opcode steps for both scripts together (form 2); checked at run time
 
 
-@harness("C15", lemma="register-opcode-1", cubes={"form": [0, 1, 2], "first": [0, 1]}, pre=["0 <= a <= %d" % REG_STEPS],
-         example=dict(form=1, first=0, a=30), timeout=900,
+@harness("C15", lemma="register-opcode-1", cubes={"form": [0, 1, 2], "first": [0, 1], "lo": [0, 66, 132, 198, 264]},
+         pre=["lo <= a < lo + 66", "0 <= a <= %d" % REG_STEPS], example=dict(form=1, first=0, lo=0, a=30), timeout=900,
          bounds="2 real threads registering 2 aliases each on ONE dataset (" + "; ".join("%d=%s" % kv for kv in REG.items()) + "), with a "
                 "yield point before every BYTECODE of labrea/overload.py and labrea/dataset.py; the per-Overloaded lock replaced by a "
                 "cooperative lock; every schedule with one context switch (the preempted thread resumes when the other is done): "
                 "offsets up to the measured opcode count",
          what="after concurrent registrations every alias dispatches to its implementation (no lost update), the default still serves "
               "unregistered values")
-def register_opcode1(form: int, first: int, a: int) -> int:
+def register_opcode1(form: int, first: int, lo: int, a: int) -> int:
     r, n = _register(form, first, (a,), "opcode")
     if n > REG_STEPS:
         return 0       # offsets must span the measured opcode count of both scripts
@@ -236,13 +237,7 @@ def register_opcode2(form: int, first: int, lo: int, a: int, b: int) -> int:
 
 
 # ---------------------------------------------------------------------------------------------------------
-@harness("C15", lemma="evaluate-line", cubes={"first": [0, 1], "warm": [False, True]}, pre=["0 <= a <= 66", "a <= b <= 66"],
-         example=dict(first=0, warm=False, a=10, b=25), timeout=900,
-         bounds="2 real threads evaluating ONE cached dataset (real MemoryCache) with different options, optionally after a warm-up "
-                "evaluation, with a yield point before every source line of labrea/cache.py; every schedule with up to 2 context switches (66 measured line steps; checked at run time)",
-         what="concurrent evaluations of one cached dataset each return the value belonging to their own options, and later "
-              "evaluations still do")
-def evaluate_line(first: int, warm: bool, a: int, b: int) -> int:
+def _evaluate(first, warm, switches):
     sched = Sched()
     runs = []
     with untraced():
@@ -255,11 +250,30 @@ def evaluate_line(first: int, warm: bool, a: int, b: int) -> int:
         d({"A": 1})
     files = (lcache.__file__,)
     ws = [Worker(sched, [lambda: d({"A": 1})], "line", files), Worker(sched, [lambda: d({"A": 2})], "line", files)]
-    n = run_two(ws, first, (a, b))
-    later = [d({"A": 1}), d({"A": 2})]
-    note("first", first, "switches", (a, b), "steps", n, "results", [w.results for w in ws], "later", later)
+    n = run_two(ws, first, switches, bound=512)
+    with untraced():
+        later = [d({"A": 1}), d({"A": 2})]
+    note("first", first, "switches", switches, "steps", n, "results", [w.results for w in ws], "later", later)
     if not all(w.finished for w in ws) or n > 66:
         return 0
     if ws[0].results != [("v", 1)] or ws[1].results != [("v", 2)] or later != [("v", 1), ("v", 2)]:
         return 0
     return 2
+
+
+_EB = ("2 real threads evaluating ONE cached dataset (real MemoryCache) with different options, optionally after a warm-up "
+       "evaluation, with a yield point before every source line of labrea/cache.py (66 measured line steps; checked at run time)")
+_EW = "concurrent evaluations of one cached dataset each return the value belonging to their own options, and later evaluations still do"
+
+
+@harness("C15", lemma="evaluate-line-1", cubes={"first": [0, 1], "warm": [False, True]}, pre=["0 <= a <= 66"],
+         example=dict(first=0, warm=False, a=10), timeout=900, bounds=_EB + "; every schedule with one context switch", what=_EW)
+def evaluate_line1(first: int, warm: bool, a: int) -> int:
+    return _evaluate(first, warm, (a,))
+
+
+@harness("C15", lemma="evaluate-line-2", cubes={"first": [0, 1], "warm": [False, True], "lo": list(range(0, 67, 6))}, tier="thorough",
+         pre=["lo <= a < lo + 6", "a <= b <= 66"], example=dict(first=0, warm=False, lo=6, a=10, b=25), timeout=1800,
+         bounds=_EB + "; every schedule with two context switches", what=_EW)
+def evaluate_line2(first: int, warm: bool, lo: int, a: int, b: int) -> int:
+    return _evaluate(first, warm, (a, b))
